@@ -72,7 +72,7 @@ class FileConfig:
     def get_namespace(self, ns):
         res = {}
         for k, v in self.items():
-            if k.startswith(ns):
+            if k.startswith(ns + "."):
                 new_key = k[len(ns) + 1 :]
                 res[new_key] = v
         return res
